@@ -451,6 +451,8 @@ func c10Sock(kinds [2]int, seq []int) string {
 		eps[k] = n.NewSock(trans, netp).EP
 	}
 	closed := [2]bool{}
+	var holds, connected, hadPort [2]bool
+	var fam [2]string
 	var hist []string
 	for _, code := range seq {
 		k, op := code/len(c10SockOpNames), code%len(c10SockOpNames)
@@ -493,6 +495,37 @@ func c10Sock(kinds [2]int, seq []int) string {
 		for _, f := range w.InFlight() {
 			w.Take(f) // SYNs of connecting TCP sockets go nowhere
 		}
+		// a port that one open socket holds is never handed to the other one of the same kind
+		// bookkeeping: who holds a reservation (a TCP connect gives the reservation up and relies
+		// on the 4-tuple from then on; that is the repository's design, not a conflict)
+		isTCP := strings.HasPrefix(c10SockKinds[kinds[k]], "tcp")
+		la, _ := ep.GetLocalAddress()
+		switch {
+		case op == 6:
+			holds[k] = false
+		case op <= 2 && la.Port != 0 && !connected[k]:
+			holds[k] = true
+			fam[k] = "4"
+			if dual[k] {
+				fam[k] = "46"
+			}
+		case (op == 3 || op == 4) && la.Port != 0:
+			mine := "4"
+			if op == 4 {
+				mine = "6"
+			}
+			if o := 1 - k; !hadPort[k] && kinds[0] == kinds[1] && holds[o] && !closed[o] && strings.Contains(fam[o], mine) {
+				if lo, _ := eps[o].GetLocalAddress(); lo.Port == la.Port {
+					return fmt.Sprintf("after %v: connect on an unbound %s socket picked local port %d, which the other %s socket holds reserved", hist, c10SockKinds[kinds[k]], la.Port, c10SockKinds[kinds[o]])
+				}
+			}
+			connected[k] = true
+			holds[k] = !isTCP
+			if !hadPort[k] {
+				fam[k] = mine
+			}
+		}
+		hadPort[k] = la.Port != 0
 	}
 	for k := range eps {
 		if !closed[k] {
